@@ -29,6 +29,11 @@ EXTENDS Integers, Sequences, FiniteSets, TLC
 
 \* TRUE: as repaired in /repo (finding F113: every instance of a CTE gets the redirect of a column added to its SELECT)
 CONSTANT RepairedSI
+\* "none": the pass as it is.  The other values are deliberate mistakes (the kind seeded changes made) that the bounded
+\* models must refute - run as anti-vacuity tests: "join-clears" (a join forgets the order of its left input),
+\* "take-prefers-inherited" (a take orders by the sorting inherited from the CTE although it has a sort of its own),
+\* "distinct-keeps" (DISTINCT keeps the sorting, so the CTE's SELECT DISTINCT gets the sort column added)
+CONSTANT Mutant
 
 \* one record shape for all transforms of a compiled PQ pipeline
 \*   k    : "Select" "From" "Join" "Sort" "Take" "Aggregate" "Distinct" "DistinctOn" "Union" "Other"
@@ -68,12 +73,14 @@ Steps(ts, s, env) ==
                  out |-> Append(s.out, IF t.sub # <<>> THEN [t EXCEPT !.sub = inner.out] ELSE t)]
         \* just store the sorting, do not emit the Sort
         [] t.k = "Sort" -> [s EXCEPT !.sorting = t.keys, !.do = FALSE]
+        [] t.k = "Distinct" /\ Mutant = "distinct-keeps" -> [s EXCEPT !.do = TRUE, !.out = Append(s.out, t)]
         [] t.k \in {"Distinct", "Aggregate"} -> [sorting |-> <<>>, do |-> FALSE, out |-> Append(s.out, t)]
         \* a sorting that only selected the row of a DISTINCT ON does not pass a join
-        [] t.k = "Join" -> IF s.do THEN [sorting |-> <<>>, do |-> FALSE, out |-> Append(s.out, t)]
+        [] t.k = "Join" -> IF s.do \/ Mutant = "join-clears" THEN [sorting |-> <<>>, do |-> FALSE, out |-> Append(s.out, t)]
                            ELSE [s EXCEPT !.out = Append(s.out, t)]
         \* emit the Sort in front of the Take: the sort embedded by the lowering if there is one
-        [] t.k = "Take" -> LET e == IF t.part = <<>> /\ t.keys # <<>> THEN t.keys ELSE s.sorting
+        [] t.k = "Take" -> LET e == IF Mutant = "take-prefers-inherited" /\ s.sorting # <<>> THEN s.sorting
+                                     ELSE IF t.part = <<>> /\ t.keys # <<>> THEN t.keys ELSE s.sorting
                            IN [s EXCEPT !.out = s.out \o << [P("Sort") EXCEPT !.keys = e], t >>]
         [] t.k = "DistinctOn" -> [s EXCEPT !.do = TRUE, !.out = s.out \o << [P("Sort") EXCEPT !.keys = s.sorting], t >>]
         [] OTHER -> [s EXCEPT !.out = Append(s.out, t)],
@@ -149,16 +156,23 @@ MeanSteps(ts, m, menv) ==
     MeanSteps(Tail(ts),
       CASE t.k = "From" -> [m EXCEPT !.ord = IF t.sub # <<>> THEN MeanPipe(t.sub, menv).ord
                                              ELSE IF t.src \in DOMAIN menv.ctes THEN menv.ctes[t.src] ELSE <<>>,
-                                     !.prevsort = <<>>]
-        [] t.k = "Sort" -> [m EXCEPT !.ord = CanonKeys(t.keys, menv.R, menv.A), !.prevsort = CanonKeys(t.keys, menv.R, menv.A)]
+                                     !.prevsort = <<>>, !.expl = FALSE]
+        [] t.k = "Sort" -> [m EXCEPT !.ord = CanonKeys(t.keys, menv.R, menv.A), !.prevsort = CanonKeys(t.keys, menv.R, menv.A), !.expl = TRUE]
         \* group and aggregate reset the order; so does append; what order a right / full join leaves is not said
-        [] t.k \in {"Aggregate", "Distinct", "Union"} -> [m EXCEPT !.ord = <<>>, !.prevsort = <<>>]
-        [] t.k = "DistinctOn" -> [m EXCEPT !.ord = <<>>, !.dons = Append(m.dons, m.prevsort), !.prevsort = <<>>]
-        [] t.k = "Join" -> [m EXCEPT !.ord = IF t.side \in {"Inner", "Left"} THEN m.ord ELSE <<>>, !.prevsort = <<>>]
-        [] t.k = "Take" -> [m EXCEPT !.takes = Append(m.takes, m.ord), !.prevsort = <<>>]
+        [] t.k \in {"Aggregate", "Distinct", "Union"} -> [m EXCEPT !.ord = <<>>, !.prevsort = <<>>, !.expl = FALSE]
+        [] t.k = "DistinctOn" -> [m EXCEPT !.ord = <<>>, !.dons = Append(m.dons, m.prevsort), !.prevsort = <<>>, !.expl = FALSE]
+        [] t.k = "Join" -> [m EXCEPT !.ord = IF t.side \in {"Inner", "Left"} THEN m.ord ELSE <<>>, !.prevsort = <<>>,
+                                     !.expl = IF t.side \in {"Inner", "Left"} THEN m.expl ELSE FALSE]
+        \* a Sort of this SELECT that is still in effect is the order at the take.  Without one, the sort the lowering embedded
+        \* in an un-partitioned take is the order in effect as the resolver saw it (the flattener drops the stand-alone Sort
+        \* when a group follows: then only the takes carry it) and goes before an order inherited from the CTE.  (With a
+        \* Sort of this SELECT in effect a different embedded sort is stale or leaked - findings F33, F47, F56 - and not
+        \* what the statement is ordered by.)  The order in effect afterwards stays what the query itself establishes.
+        [] t.k = "Take" -> LET o == IF ~m.expl /\ t.part = <<>> /\ t.keys # <<>> THEN CanonKeys(t.keys, menv.R, menv.A) ELSE m.ord
+                           IN [m EXCEPT !.takes = Append(m.takes, o), !.prevsort = <<>>]
         [] OTHER -> [m EXCEPT !.prevsort = <<>>],
       menv)
-MeanPipe(ts, menv) == MeanSteps(ts, [ord |-> <<>>, takes |-> <<>>, dons |-> <<>>, prevsort |-> <<>>], menv)
+MeanPipe(ts, menv) == MeanSteps(ts, [ord |-> <<>>, takes |-> <<>>, dons |-> <<>>, prevsort |-> <<>>, expl |-> FALSE], menv)
 
 RECURSIVE MeanCtes(_, _)
 MeanCtes(ctes, menv) ==
@@ -175,8 +189,15 @@ MeanEnv(q, R, A, n) == MeanCtes(SubSeq(q.ctes, 1, n - 1), [ctes |-> EmptyFn, R |
 \* One SELECT has one ORDER BY: the statement is ordered by the LAST Sort of its atomic pipeline (gen_query), and every
 \* LIMIT and DISTINCT ON of that SELECT selects rows in that order (the anchor cuts the pipeline wherever two different
 \* orders would be needed: Backend.tla, BadPair).
-HasSort(a) == \E j \in 1 .. Len(a) : a[j].k = "Sort"
-EffSort(a) == IF HasSort(a) THEN a[CHOOSE j \in 1 .. Len(a) : a[j].k = "Sort" /\ \A i \in j + 1 .. Len(a) : a[i].k # "Sort"].keys ELSE <<>>
+\* (A set operation closes the SELECT of what stands before it: the sorts and takes in front of a Union belong to the
+\* left operand, which gets its own ORDER BY / LIMIT.)
+SegOf(a, j) == { i \in 1 .. Len(a) : /\ \A u \in 1 .. Len(a) : a[u].k = "Union" => ~(i < u /\ u < j) /\ ~(j < u /\ u < i)
+                                     /\ (a[i].k = "Union" => FALSE) }
+SortsIn(a, S) == { i \in S : a[i].k = "Sort" }
+EffSortAt(a, j) == LET ss == SortsIn(a, SegOf(a, j)) IN IF ss = {} THEN <<>> ELSE a[CHOOSE i \in ss : \A x \in ss : x <= i].keys
+EffSort(a) == IF a = <<>> THEN <<>> ELSE EffSortAt(a, Len(a))
+NthOf(S, n) == CHOOSE j \in S : Cardinality({ i \in S : i < j }) = n - 1
+Where(a, k) == { j \in 1 .. Len(a) : a[j].k = k }
 Count(a, k) == Cardinality({ j \in 1 .. Len(a) : a[j].k = k })
 PipeOrderVerdict(b, a, menv, isMain) ==
   LET m == MeanPipe(b, menv)
@@ -185,8 +206,8 @@ PipeOrderVerdict(b, a, menv, isMain) ==
   IN IF Count(a, "Take") # Len(m.takes) \/ Count(a, "DistinctOn") # Len(m.dons) THEN "transform-lost"
      \* SELECT DISTINCT de-duplicates its select list: a column added to carry a sort would split the groups
      ELSE IF Count(a, "Distinct") > 0 /\ selOf(a) # selOf(b) THEN "distinct-select-extended"
-     ELSE IF \E n \in 1 .. Len(m.takes) : ~IsPrefixOf(m.takes[n], eff) THEN "take-order"
-     ELSE IF \E n \in 1 .. Len(m.dons) : ~IsPrefixOf(m.dons[n], eff) THEN "distinct-on-order"
+     ELSE IF \E n \in 1 .. Len(m.takes) : ~IsPrefixOf(m.takes[n], CanonKeys(EffSortAt(a, NthOf(Where(a, "Take"), n)), menv.R, menv.A)) THEN "take-order"
+     ELSE IF \E n \in 1 .. Len(m.dons) : ~IsPrefixOf(m.dons[n], CanonKeys(EffSortAt(a, NthOf(Where(a, "DistinctOn"), n)), menv.R, menv.A)) THEN "distinct-on-order"
      ELSE IF isMain /\ ~IsPrefixOf(m.ord, eff) THEN "final-order"
      ELSE "ok"
 
